@@ -37,7 +37,7 @@ def negative_configs():
     core.sut()
     decl_dir, _ = V.prepare_decl(decl.CSV_LIBS)
     jo = ["-DTLA-Library=" + decl_dir]
-    run = "N = 3 Memo = %s CycleGuard = %s ResetOnUnwind = %s Sweep = %s LeafKey = \"mixed\" MaxStack = 5 MaxCalls = %d MaxFail = %d MaxSpecial = %d MemoKey = \"%s\" OnlyDags = %s OnlyCyclic = FALSE"
+    run = "N = 3 Memo = %s CycleGuard = %s ResetOnUnwind = %s Sweep = %s LeafKey = \"mixed\" MaxStack = 5 MaxCalls = %d MaxFail = %d MaxSpecial = %d MemoKey = \"%s\" OnlyDags = %s OnlyCyclic = FALSE MaxEdges = 9"
     inv = ["ExactlyOnce", "RunCompletes", "TermCorrect", "CyclicRejected", "AcyclicAccepted", "NoSpuriousRecursive", "StackBounded", "FailureReported"]
     props = ["NoReexec", "Quiescent", "FinishedStays", "RefinesAbs"]
     jobs = [
